@@ -230,12 +230,14 @@ def _expand(days, k):
 
 
 @st.composite
-def cases(draw, tier="quick"):
+def cases(draw, tier="quick", bias=None):
+    """bias="gappy-intraday": exchange-shaped tables with several rows per day and a block of rows removed (row spans
+    that are long and not a whole number of days) - a rare conjunction under the default draws."""
     cal = draw(st.sampled_from(["NYSE", "NYSE", "SSE", "SSE", "LSE", "24/7"]))
     hol = holidays(cal)
-    shape = draw(st.sampled_from(["daily", "exchange", "exchange"]))
+    shape = draw(st.sampled_from(["daily", "exchange", "exchange"])) if bias is None else "exchange"
     # rows per day: daily tables (most cases) or 12-/6-hourly rows in Y, in X or in both
-    sub = draw(st.sampled_from([1, 1, 1, 2, 1, 1, 4, 1]))
+    sub = draw(st.sampled_from([1, 1, 1, 2, 1, 1, 4, 1])) if bias is None else draw(st.sampled_from([2, 4]))
     intraday = draw(st.sampled_from(["both", "y", "x"])) if sub > 1 else None
     ky = sub if intraday in ("both", "y") else 1
     kx = sub if intraday in ("both", "x") else 1
@@ -268,7 +270,7 @@ def cases(draw, tier="quick"):
         yd = list(range(span))
     else:
         yd = [d for d in range(span) if trading(d)]
-        extra = draw(st.sampled_from(["none", "none", "few", "block", "both"]))
+        extra = draw(st.sampled_from(["none", "none", "few", "block", "both"])) if bias is None else draw(st.sampled_from(["block", "both"]))
         if extra in ("few", "both") and len(yd) >= 16:
             drop = set(draw(st.lists(st.integers(1, len(yd) - 2), max_size=max(1, len(yd) // 12), unique=True)))
             yd = [d for i, d in enumerate(yd) if i not in drop]
